@@ -76,9 +76,24 @@ def rule_L1_sampler(ctx, which, rid='L1'):
              'sequence of structural updates with the same selectors; optional members only '
              'skip an update under an explicit presence test')
     out = {}
+    from .resolve import helper_closure
+    S0 = ctx.program.cls('Sampler')
+    allowed0, _ = helper_closure(ctx.program, S0, {
+        'Sampler.add_bound', 'Sampler.run', 'Sampler.add_samples', 'Sampler.__init__'})
     if 'shell' in which:
         out['add_bound.shell'] = run_lockstep(ctx, rid, 'Sampler.add_bound', G_SHELL, ('list',))
-        out['run.shell'] = run_lockstep(ctx, rid, 'Sampler.run', G_SHELL, ('list',), max_loop=1)
+        # the removal of empty shells: in run() itself or in a helper only run() calls
+        sites = 0
+        for q in sorted(allowed0 - {'Sampler.add_bound', 'Sampler.__init__',
+                                    'Sampler.add_samples'}):
+            fq = ctx.program.func(q)
+            trq = SamplerTracker(fq, G_SHELL.members)
+            if any(e.op in STRUCTURAL and e.level == 'list' and e.member in G_SHELL.members
+                   for es in trq.all_events().values() for e in es):
+                out[q + '.shell'] = run_lockstep(ctx, rid, q, G_SHELL, ('list',), max_loop=1)
+                sites += 1
+        ctx.require(sites >= 1, 'removal of empty shells not found in Sampler.run or its '
+                    'helpers (anchor drift)')
     if 'rows' in which:
         out['add_bound.rows'] = run_lockstep(ctx, rid, 'Sampler.add_bound', G_ROWS, ('elem',))
         out['add_samples.rows'] = run_lockstep(ctx, rid, 'Sampler.add_samples', G_ROWS,
@@ -86,7 +101,7 @@ def rule_L1_sampler(ctx, which, rid='L1'):
     if 't' in which:
         out['add_bound.t'] = run_lockstep(ctx, rid, 'Sampler.add_bound', G_T, ('list',))
     # no other Sampler method changes these groups structurally (who-may rule)
-    allowed = {'Sampler.add_bound', 'Sampler.run', 'Sampler.add_samples', 'Sampler.__init__'}
+    allowed = allowed0
     S = ctx.program.cls('Sampler')
     members = set(G_SHELL.members) | set(G_T.members)
     for name, f in sorted(S.methods.items()):
